@@ -18,3 +18,28 @@ def own_nodes(fn: ast.AST) -> Iterator[ast.AST]:
             yield st
             continue
         yield from q.walk_local(st)
+
+
+def strip_annotations(repo, *relpaths):
+    """Repo copy in which annotated assignments with a value (`x: T = v`, `self.a: T = v`) are plain assignments in the
+    given modules.  Inside functions this is behaviour-identical; rules then need only one spelling of a binding."""
+    import ast as _ast
+    import copy as _copy
+
+    class T(_ast.NodeTransformer):
+        def visit_AnnAssign(self, node):
+            if node.value is not None and isinstance(node.target, (_ast.Name, _ast.Attribute)):
+                return _ast.copy_location(_ast.Assign(targets=[node.target], value=node.value, type_comment=None), node)
+            return node
+
+    out = repo
+    for rel in relpaths:
+        if not rel.startswith("tornado/"):
+            rel = "tornado/" + rel
+        m = out.module(rel)
+        if not any(isinstance(n, _ast.AnnAssign) and n.value is not None for n in _ast.walk(m.tree)):
+            continue
+        tree = T().visit(_copy.deepcopy(m.tree))
+        _ast.fix_missing_locations(tree)
+        out = out.with_module(rel, tree=tree)
+    return out
